@@ -78,6 +78,7 @@ struct fm_shape_info {
   X(void, fm_angle_to_radians_range, (int type, u64 start, size_t n, i64* out)) \
   X(i64,  fm_xangle,        (int fn, int type, u64 bits)) \
   X(i64,  fm_angle_aprox,   (int cosine, int32_t angle)) \
+  X(i64,  fm_angle_aprox_typed, (int cosine, int type, u64 bits)) \
   X(int,  fm_angle_constarg_count, (void)) \
   X(int32_t, fm_angle_constarg_value, (int idx)) \
   X(i64,  fm_angle_constarg, (int cosine, int idx)) \
@@ -97,6 +98,7 @@ struct fm_shape_info {
   X(u64,  fm_un_cmpmask,    (int op, i64 a)) \
   X(u64,  fm_bin_cmpmask,   (int op, i64 a, i64 b)) \
   X(i64,  fm_cmpmask_const, (int i)) \
+  X(i64,  fm_cmp_results,   (int un_op, int k, i64 a, i64 b)) \
   X(int,  fm_cmpmask_count, (void)) \
   X(void, fm_seq_conv,      (int type, i64 a, i64 b, u64* r1, u64* r2)) \
   X(void, fm_seq_un,        (int op, i64 a, i64 b, i64* r1, i64* r2)) \
